@@ -94,7 +94,21 @@ func init() {
 				Env: []string{"GORACE=halt_on_error=0 log_path=" + logBase, "C13_RACE=1"}}
 			r.RunShards(b.bin, "C13race", nsh, []string{"C13"}, ro)
 		}()
+		// Quick tier: the one case with more than 255*255 chunks (three index
+		// levels) runs in a child of its own next to the 16 shards; the thorough
+		// tier has one such case inside every shard.
+		deepDone := make(chan struct{})
+		go func() {
+			defer close(deepDone)
+			if r.Thorough() {
+				return
+			}
+			do := o
+			do.Env = []string{"C13_ONLY=deep3"}
+			r.RunShards(bin, "C13deep", 1, []string{"C13"}, do)
+		}()
 		r.RunShards(bin, "C13", 16, []string{"C13"}, o)
+		<-deepDone
 		<-raceDone
 
 		if wantRace {
